@@ -276,7 +276,7 @@ def mon_c04(sc, res):
     addr2conn = {}
     snaps = {}
     for sn in res["log"].snaps:
-        if 0 <= sn["step"] < len(itr.smap):
+        if 0 <= sn["step"] < len(itr.smap) and sn.get("internals", True):
             snaps[itr.smap[sn["step"]]] = sn
     uncertain = False
     dead = set()
@@ -428,7 +428,7 @@ def mon_c01(sc, res):
     addr2conn = {}
     snaps = {}
     for sn in res["log"].snaps:
-        if 0 <= sn["step"] < len(itr.smap):
+        if 0 <= sn["step"] < len(itr.smap) and sn.get("internals", True):
             snaps[itr.smap[sn["step"]]] = sn
     dead = set()
     unhealthy = set()
@@ -582,7 +582,7 @@ def mon_c03(sc, res):
     inflight = {}      # rid(bytes) -> dict(caller, owner, origin, timer)
     snaps = {}
     for sn in res["log"].snaps:
-        if 0 <= sn["step"] < len(itr.smap):
+        if 0 <= sn["step"] < len(itr.smap) and sn.get("internals", True):
             snaps[itr.smap[sn["step"]]] = sn
     dead = set()
     ever = set()
@@ -722,7 +722,7 @@ def mon_c05(sc, res):
     log = res["log"]
     snaps = {}
     for sn in log.snaps:
-        if 0 <= sn["step"] < len(itr.smap):
+        if 0 <= sn["step"] < len(itr.smap) and sn.get("internals", True):
             snaps[itr.smap[sn["step"]]] = sn
     addr2conn = {}
     conn_addr = {}
@@ -988,12 +988,22 @@ def mon_c11(sc, res):
                 return fails
     owners = set()
     for sn in res["log"].snaps:
+        if not sn.get("internals", True):
+            continue
         a2c = {}
         for si2 in range(len(sc.steps)):
             for c, a in res["itr"].peers[si2]:
                 a2c[a] = c
         for e in sn["elems"]:
             owners.add(a2c.get(e["owner"]))
+    # (also from the requests themselves: a connection that ever asked to add an element counts as an owner; this is what
+    # is left when the run carries no state images)
+    for si2, st2 in enumerate(sc.steps):
+        for c, v in step_requests(st2, res["itr"].replies, si2):
+            if v is not None:
+                for r in flatten_requests(v)[0]:
+                    if cget(r, b"method") == b"add":
+                        owners.add(c)
     if owners & faulty:
         return fails
     hsteps = []
@@ -1022,7 +1032,7 @@ def mon_c11(sc, res):
     # final element image must be the same
     sa = res["log"].snaps[-1] if res["log"].snaps else None
     sb = res2["log"].snaps[-1] if res2["log"].snaps else None
-    if sa and sb:
+    if sa and sb and sa.get("internals", True) and sb.get("internals", True):
         ea = sorted((e["path"], e["value"]) for e in sa["elems"])
         eb = sorted((e["path"], e["value"]) for e in sb["elems"])
         if ea != eb:
